@@ -26,7 +26,7 @@ pub static DEF: PropDef = PropDef {
     level: "exploration",
     total: |t| t.pick(1024, 25600),
     run,
-    rule: "2..8 machines on one network, 1..3 distinct claimed addresses each, resolver subnet configuration with masks 0/8/24/30/32 and a gateway that exists or not, 1..20 resolutions started at random virtual times (same or different targets, claimed or unclaimed, on- or off-subnet), latency 0..30 ms, loss plans over ARP frames: none / first k requests / first k replies / every n-th frame / everything. Run on the paused clock. Every Arp::resolve return value and completion time is checked against the owner's tap address computed from Pci::mac_addresses, the harness's own subnet arithmetic and the ARP frames the H4 hook saw delivered. Non-trivial = scenario with >=1 retry observed (a second request for the same target by the same resolver) and >=1 gateway substitution; distinct by scenario hash.",
+    rule: "2..8 machines on one network, 1..3 distinct claimed addresses each, per-machine subnet configuration (mask of any length 0..=32, a gateway that is some machine's address or nobody's), 1..20 resolutions started at random virtual times (same or different targets, claimed or unclaimed, on- or off-subnet), latency 0..30 ms, loss plans over ARP frames: none / first k requests / first k replies / every n-th frame / everything. Run on the paused clock. Every Arp::resolve return value and completion time is checked against the owner's tap address computed from Pci::mac_addresses, the harness's own subnet arithmetic and the ARP frames the H4 hook saw delivered. Non-trivial = scenario with >=1 retry observed (a second request for the same target by the same resolver) and >=1 gateway substitution; distinct by scenario hash.",
     assumptions: &[
         "claimed addresses are pairwise distinct across machines",
         "a call answered from the failure cache sends no request; for it only 'error, and at once' is judged",
@@ -78,10 +78,11 @@ fn scenario(env: &Env, k: u64, case: u64, rng: &mut rand::rngs::SmallRng, d: &mu
     // which machines have a second tap
     let second: Vec<bool> = (0..n_machines).map(|m| two_nets && (m < 2 || rng.chance(1, 2))).collect();
     // subnet config per machine (for its first claimed address)
-    let mask_len = *rng.pick(&[0u32, 8, 24, 30, 32]);
-    let gateway_machine = rng.gen_range(0..n_machines);
-    let gateway_exists = rng.chance(3, 4);
-    let gateway_ip = if gateway_exists { claims[gateway_machine][0] } else { base.wrapping_add(250) };
+    // every machine has its own mask (any length 0..=32, the ends and the lengths that split the claimed
+    // block over-represented) and its own gateway, which exists or not
+    let mask_len: Vec<u32> = (0..n_machines).map(|_| if rng.chance(1, 2) { *rng.pick(&[0u32, 8, 24, 28, 29, 30, 31, 32]) } else { rng.gen_range(0..=32) }).collect();
+    let gateway_exists: Vec<bool> = (0..n_machines).map(|_| rng.chance(3, 4)).collect();
+    let gateway_ip: Vec<u32> = (0..n_machines).map(|m| if gateway_exists[m] { claims[rng.gen_range(0..n_machines)][0] } else { base.wrapping_add(250) }).collect();
     let subnet_on: Vec<bool> = (0..n_machines).map(|_| rng.chance(1, 2)).collect();
     // calls
     let n_calls = rng.gen_range(1..=20usize);
@@ -106,7 +107,7 @@ fn scenario(env: &Env, k: u64, case: u64, rng: &mut rand::rngs::SmallRng, d: &mu
     let plan_name = ["none", "drop first k requests of each sender", "drop first k replies", "drop every k-th ARP frame", "drop everything", "none", "duplicate replies"][plan_kind];
     let desc = json!({
         "machines": n_machines, "claims": claims.iter().map(|v| v.iter().map(|a| format!("{}", ip(*a))).collect::<Vec<_>>()).collect::<Vec<_>>(),
-        "second_tap": second, "latency_ms": lat, "mask_len": mask_len, "gateway": format!("{}", ip(gateway_ip)), "gateway_exists": gateway_exists, "subnet_configured": subnet_on,
+        "second_tap": second, "latency_ms": lat, "mask_len": mask_len, "gateway": gateway_ip.iter().map(|g| format!("{}", ip(*g))).collect::<Vec<_>>(), "gateway_exists": gateway_exists, "subnet_configured": subnet_on,
         "loss_plan": plan_name, "k": plan_k,
         "calls": calls.iter().map(|c| format!("#{} m{} slot{} {} -> {} at {}ms", c.id, c.machine, c.slot, ip(c.local), ip(c.remote), c.at_ms)).collect::<Vec<_>>(),
         "scenario": k, "case": case,
@@ -119,6 +120,8 @@ fn scenario(env: &Env, k: u64, case: u64, rng: &mut rand::rngs::SmallRng, d: &mu
         let outcomes = outcomes.clone();
         let second = second.clone();
         let subnet_on = subnet_on.clone();
+        let mask_len = mask_len.clone();
+        let gateway_ip = gateway_ip.clone();
         run_paused(async move {
             let mk = || {
                 let mut b = NetworkBuilder::new();
@@ -183,7 +186,7 @@ fn scenario(env: &Env, k: u64, case: u64, rng: &mut rand::rngs::SmallRng, d: &mu
                 macs.push(pci.mac_addresses().collect());
                 let mut arp = Arp::new();
                 if subnet_on[m] {
-                    arp = arp.preconfig_subnet(ip(claims[m][0]), SubnetInfo::new(Ipv4Mask::from_bitcount(mask_len), ip(gateway_ip)));
+                    arp = arp.preconfig_subnet(ip(claims[m][0]), SubnetInfo::new(Ipv4Mask::from_bitcount(mask_len[m]), ip(gateway_ip[m])));
                 }
                 let my_claims = claims[m].clone();
                 let my_calls: Vec<Call> = calls.iter().filter(|c| c.machine == m).cloned().collect();
@@ -270,10 +273,11 @@ fn scenario(env: &Env, k: u64, case: u64, rng: &mut rand::rngs::SmallRng, d: &mu
         };
         // effective target by the harness's own arithmetic
         let configured = subnet_on[c.machine] && c.local == claims[c.machine][0];
-        let m = if mask_len == 0 { 0u32 } else { (!0u32) << (32 - mask_len) };
+        let ml = mask_len[c.machine];
+        let m = if ml == 0 { 0u32 } else { (!0u32) << (32 - ml) };
         let target = if configured && (c.local & m) != (c.remote & m) {
             gateway_subst = true;
-            gateway_ip
+            gateway_ip[c.machine]
         } else {
             c.remote
         };
